@@ -130,3 +130,15 @@ prop("C09",
           "on every connection and the open/closed state must be identical (heap pointers inside routed ids normalised). non-trivial: the second execution used at least 3 partial deliveries; distinct by the pair of trace hashes",
      nontrivial=[["segmented_send>=3"]],
      required_probes=["segmented_send", "early_prefix_of_next", "short_read", "drop:length prefix above the maximum", "multi_message_read", "ws_upgraded", "routed_seen_by_owner", "canary_ok"])
+
+prop("C10",
+     mix=[("c10", "wbuf", 3), ("c10", "small", 2), ("c10", "default", 1.5), ("c10", "batch1", 0.5)],
+     quick_mix=[("c10", "wbuf", 2), ("c10", "small", 1), ("c10", "default", 1)],
+     quick_s=30, thorough_s=600, opts={"memprop": "C10"},
+     rule="seeded workloads that make the daemon emit many frames of many sizes (subscriptions to busy paths, large get results, routed requests and relayed replies) to 1-2 victim connections (raw, unix, WebSocket) whose send path follows a drawn "
+          "function: accept k bytes then block, dribble 1-7 bytes per writability event, cap each write, cut inside the 4-byte prefix / the WebSocket header / at iovec boundaries, resume in any amount, fail with EPIPE/ECONNRESET; write buffers of 256, 700 and 5120 bytes. "
+          "Oracle at the writev seam, independent of the reference model: (1) the pending buffer the daemon shows on every call equals what the kernel has not yet accepted of what it was offered (or that minus a frame refused as a whole); "
+          "(2) the accepted byte stream parses, byte by byte, into a subsequence of the offered frames, in order, each complete (NFA over frame index and offset); (3) a writable, idle connection has no parked or partial output; (4) bounded system calls per event-loop turn. "
+          "non-trivial: at least one write was cut short or refused with would-block and output was parked; distinct by trace hash",
+     nontrivial=[["fault:short_write", "c10_frame_offered_behind_pending"], ["fault:would_block", "flush_on_writable"]],
+     required_probes=["fault:short_write", "fault:would_block", "fault:write_error", "flush_on_writable", "partial_in_prefix", "partial_in_payload", "partial_in_pending", "partial_in_ws_header", "buffer_overflow", "c10_frame_offered_behind_pending", "writable_again", "ws_header_16bit"])
